@@ -63,6 +63,28 @@ def buf_histogram(ilines, extra):
     return h
 
 
+def gen_epoch_cases(ctx, n, cnt, prefix="e"):
+    """aimed at the epoch test of clear_buffer and at the window between the flips: a writer is stopped somewhere in
+    synchronize (often between the unlock and the first pop), a reader enters a section, a third thread unpublishes and
+    retires an object (tagged with the new epoch), then the writer goes on."""
+    rng = ctx.rng
+    cases = []
+    for i in range(n):
+        w = [[1], [5], [5]] if rng.chance(1, 2) else [[1], [6, 50], [5]]
+        r = [[1], [3], [9], [9], [3], [9], [4], [4]]
+        a = [[1], [7, 1], [8], [6, 1], [7, 2], [8], [6, 2]]
+        if rng.chance(1, 3):
+            a = [[1], [7, 1], [8], [10, 1, 3], [6, 4]]
+        sched = [1] * (7 + rng.below(4))            # the retirer attaches and publishes
+        sched += [0] * (8 + rng.below(40))          # the writer: attach, part of synchronize
+        sched += [2] * (7 + rng.below(6))           # the reader enters (and may read the published object)
+        sched += [1] * (3 + rng.below(25))          # unpublish, retire
+        sched += [0] * (5 + rng.below(40))
+        sched += [rng.below(3) for _ in range(30)]
+        cases.append({"id": "%s%d" % (prefix, i), "cfg": [2, 3000, rng.choice(CAPS), cnt, 60], "threads": [w, a, r], "sched": sched})
+    return cases
+
+
 def run_explore(ctx, exe, cases, flavour, reps, tag, timeout=120, nproc=8):
     """real threads; chunks in parallel processes under a watchdog.  -> (monitor dict per case id, first case without output, rc)"""
     nproc = max(1, min(nproc, vcheck.NCPU, (len(cases) + 4) // 5))
@@ -108,9 +130,10 @@ def run(ctx):
         variants = [(rep.get("variant", "a0"), [rep["case"]])]
     else:
         corpus = C04.load_corpus("C05")
-        n = 2400 if thorough else 600
-        variants = [("a0", [c for c in corpus if c.get("variant", "a0") == "a0"] + C04.gen_cases(ctx, n, prefix="p", cfg=cfg_gen(0), allow_batch=True)),
-                    ("a1", [c for c in corpus if c.get("variant") == "a1"] + C04.gen_cases(ctx, n, prefix="c", cfg=cfg_gen(1), allow_batch=True))]
+        n = 3000 if thorough else 1000
+        ne = 600 if thorough else 150
+        variants = [("a0", [c for c in corpus if c.get("variant", "a0") == "a0"] + C04.gen_cases(ctx, n, prefix="p", cfg=cfg_gen(0), allow_batch=True) + gen_epoch_cases(ctx, ne, 0, "ep")),
+                    ("a1", [c for c in corpus if c.get("variant") == "a1"] + C04.gen_cases(ctx, n, prefix="c", cfg=cfg_gen(1), allow_batch=True) + gen_epoch_cases(ctx, ne, 1, "ec"))]
 
     # ---- A: step correspondence with the atomic buffer
     tot = C04.new_stats(); bh = {}; caps = {}
@@ -145,6 +168,16 @@ def run(ctx):
                 bh["cases_with_disposal_at_destruct"] = bh.get("cases_with_disposal_at_destruct", 0) + 1
             caps[str(c["cfg"][2])] = caps.get(str(c["cfg"][2]), 0) + 1
         samples += cases[:1]
+    if first_div is not None and nviol == 0 and not ctx.replay:
+        # the correspondence broke without a monitor firing: search with the monitors over more, and aimed, cases
+        var = first_div[0]
+        cntv = 1 if var == "a1" else 0
+        more = gen_epoch_cases(ctx, 3000, cntv) + C04.gen_cases(ctx, 3000, prefix="s", cfg=cfg_gen(cntv), allow_batch=True)
+        wrapper = os.path.join(ctx.work, "impl_%s.sh" % var)
+        what = "cds::urcu::gc<general_buffered> (real code, %s buffer executed atomically)" % ("counting" if var == "a1" else "default non-counting")
+        ml2, il2, rc3, miss2 = C04.run_split(ctx, model, wrapper, more, "S" + var, fuel=60000)
+        _, nv2 = C04.examine(ctx, more, ml2, il2, what, C04.new_stats())
+        nviol += nv2
     if first_div is not None and nviol == 0:
         var, (c, d) = first_div
         ctx.violation("step correspondence between LV.Model.RcuBuf and cds/urcu/details/gpb.h no longer holds",
@@ -154,7 +187,8 @@ def run(ctx):
 
     # ---- B: default buffer type under the scheduler: monitors only
     obs = {"cases": 0, "overruns": 0}
-    if not ctx.replay:
+    hung = any("hung or crashed" in w for w, _ in ctx.violations)
+    if not ctx.replay and not hung:
         for var, cnt in (("d0", 0), ("d1", 1)):
             cases = C04.gen_cases(ctx, 1200 if thorough else 300, prefix="o" + var, cfg=cfg_gen(cnt), allow_batch=True)
             what = "cds::urcu::gc<general_buffered<VyukovMPMCCycleQueue%s>> (real code under the scheduler, monitors only)" % (" with item counter" if cnt else "")
@@ -184,7 +218,8 @@ def run(ctx):
 
     # ---- C: real threads
     expl_cov = {}
-    if not ctx.replay:
+    hung = any("hung or crashed" in w for w, _ in ctx.violations)
+    if not ctx.replay and not hung:
         reps = 40 if thorough else 12
         for fl, name in (("gpt", "general_threaded<>"), ("shb", "signal_buffered<>"), ("gpb", "general_buffered<> (std::mutex)"), ("gpi", "general_instant<> (std::mutex)")):
             cases = C04.gen_cases(ctx, 160 if thorough else 60, prefix="x" + fl, cfg=cfg_gen(0), allow_batch=True)
